@@ -131,7 +131,7 @@ NOTHROW_NAMES = set("""set_parent set_owner release swap m_swap size capacity em
  is_empty space_dimension operator-> operator* operator[] operator== operator!= operator< parent get_owner
  max_size num_rows num_columns id is_shared new_reference del_reference set_empty set_zero_dim_univ
  first second c_str data front back clear pop_back destroy deallocate move forward addressof
- compute_capacity not_a_dimension integer_log2 PPL_USED ppl_unreachable unused_index
+ compute_capacity not_a_dimension integer_log2 PPL_USED ppl_unreachable unused_index make_pair
  memcpy memmove memset memcmp strlen strcmp abs labs fabs""".split())
 
 ALLOC_LEMMAS = {
@@ -182,8 +182,12 @@ class Throwers:
             name = f.call_name(n)
             if name in NOTHROW_NAMES or name.startswith(("set_", "is_", "marked_", "test_", "reset_")):
                 return False
-            if k == "construct" and (n.get("copy") or n.get("default")) and re.search(r"\*$|_type$|bool|int|long|Variable$|iterator", n.get("t", "")):
-                return False
+            if k == "construct":
+                tc = n.get("tc") or n.get("t", "")
+                if "__gmp_expr" in tc or "mpz" in tc or "mpq" in tc:
+                    return True     # GMP numbers allocate
+                if (n.get("copy") or n.get("default")) and re.search(r"\*$|\b(bool|int|long|char|unsigned|double)\b|Variable$|iterator", tc):
+                    return False
             q = n.get("callee")
             cands = self.by_q.get(q, []) if q else []
             if cands and depth > 0:
@@ -375,7 +379,89 @@ def r14_2(ctx):
                     "the raw pointer member" if is_field else "the raw local pointer", name, last,
                     " (the destructor of an object under construction does not run)" if is_field else ""),
                     {"path": p})
+    # constructors that allocate through a same-class helper (CO_Tree::init, ...): the object is still
+    # under construction, so what the helper stored in raw members leaks if the rest of the body throws
+    by_cls = {}
+    for g in fx.functions:
+        if g.clsn and not g.flag("pattern") and g.kind == "method":
+            by_cls.setdefault((g.clsn, g.name), []).append(g)
+
+    def alloc_fields(g):
+        out = set()
+        for a in g.walk():
+            if _alloc_kind(g, a):
+                how, name, _ = _binding(g, a)
+                if how == "field":
+                    out.add(name)
+        return out
+    seen2 = set()
+    for f in fx.functions:
+        if f.kind != "ctor" or f.flag("pattern") or not f.cfg:
+            continue
+        for c in f.calls():
+            if c["k"] != "mcall" or f.call_obj(c) is None or f.root(f.call_obj(c)) != ("this",):
+                continue
+            flds = set()
+            for g in by_cls.get((f.clsn, f.call_name(c)), []):
+                flds |= alloc_fields(g)
+            if not flds:
+                continue
+            key = (f.relfile, c.get("l"))
+            if key in seen2:
+                continue
+            seen2.add(key)
+            n_sites += 1
+            inst = "%s %s() allocates %s" % (re.sub(r"\(.*", "", F.strip_ns(f.sig()))[:70], f.call_name(c), "/".join(sorted(flds)))
+
+            def risky2(x, c=c, flds=flds):
+                if x is c or f.within(x, c):
+                    return False
+                if not th.node_may_throw(f, x):
+                    return False
+                # protected if inside a try whose catch (...) releases (delete / deallocate / destroy) and rethrows
+                for a in f.ancestors(x):
+                    if a["k"] == "try" and f.within(x, a["c"][0]):
+                        for h in a["c"][1:]:
+                            h = f.deref(h)
+                            if h.get("all") and any(y["k"] == "delete" or (y["k"] in ("call", "mcall") and f.call_name(y) in ("deallocate", "destroy"))
+                                                    for y in f.walk(h)):
+                                return False
+                # a same-class callee that protects itself (try/catch releasing + rethrow inside it)
+                if x["k"] == "mcall" and f.call_obj(x) is not None and f.root(f.call_obj(x)) == ("this",):
+                    gs = by_cls.get((f.clsn, f.call_name(x)), [])
+                    if gs and all(_self_protecting(g, th) for g in gs):
+                        return False
+                return True
+            pos = f.cfg_pos(c)
+            ex = flow.Explorer(f, exempt_throw=False)
+            p = ex.find_path(pos, lambda x: False, risky2) if pos else None
+            if p is None:
+                ctx.ok(rid, inst, f.where(c))
+            else:
+                last = p[-1][1][-1] if p and p[-1][1] else "?"
+                ctx.violation(rid, inst, f.where(c), "the constructor stores freshly allocated memory in %s through %s() and a later step (line %s) may throw: the destructor does not run, the memory leaks" % (
+                    "/".join(sorted(flds)), f.call_name(c), last), {"path": p})
     ctx.floor(rid, n_sites, 70, "allocation sites")
+
+
+def _self_protecting(g, th):
+    """Every may-throw event of g lies in a try whose catch (...) releases and rethrows."""
+    for x in g.walk():
+        if not th.node_may_throw(g, x):
+            continue
+        if any(a["k"] == "catch" for a in g.ancestors(x)):
+            continue    # inside a handler: the release has already happened
+        ok = False
+        for a in g.ancestors(x):
+            if a["k"] == "try" and g.within(x, a["c"][0]):
+                for h in a["c"][1:]:
+                    h = g.deref(h)
+                    if h.get("all") and any(y["k"] == "delete" or (y["k"] in ("call", "mcall") and g.call_name(y) in ("deallocate", "destroy"))
+                                            for y in g.walk(h)):
+                        ok = True
+        if not ok:
+            return False
+    return True
 
 
 def run(ctx):
